@@ -56,6 +56,11 @@ class AssignDict:
     def contains(self, ex, recv, key, q, node):
         return q.ghost[("assigned", id(self.owner))][key.ident]
 
+    def truth(self, ex, recv):
+        """bool(dict): non-empty.  The path's current key set is not available here (truthiness is asked without a path), so
+        emptiness is a fresh unknown: both branches of an `if not self._assignments` are explored."""
+        return z3.FreshBool("assignments_nonempty")
+
     def setitem(self, ex, recv, key, value, q, node):
         a = q.ghost[("assigned", id(self.owner))]
         q.ghost[("assigned", id(self.owner))] = z3.Store(a, key.ident, True)
